@@ -147,6 +147,22 @@ func (r *RolloutReconciler) Reconcile(ctx context.Context, req ctrl.Request) (ct
 	}
 	var recheckTime *time.Time
 
+	// The Rollout has just been deleted or disabled: the cleanup of these phases has its own task order, so record the
+	// phase change first and let that sequence start from its first task. Continuing at the cursor of the sequence
+	// that was running (for another reason) would skip the tasks that come earlier in the new order, or all of them
+	// when the cursor does not belong to the new sequence.
+	if newStatus != nil && newStatus.Phase != rollout.Status.Phase &&
+		(newStatus.Phase == v1beta1.RolloutPhaseTerminating || newStatus.Phase == v1beta1.RolloutPhaseDisabling) {
+		if !newStatus.IsSubStatusEmpty() {
+			newStatus.GetSubStatus().FinalisingStep = ""
+		}
+		if err = r.updateRolloutStatusInternal(rollout, *newStatus); err != nil {
+			klog.Errorf("update rollout(%s/%s) status failed: %s", rollout.Namespace, rollout.Name, err.Error())
+			return ctrl.Result{}, err
+		}
+		return ctrl.Result{}, nil
+	}
+
 	switch rollout.Status.Phase {
 	case v1beta1.RolloutPhaseProgressing:
 		recheckTime, err = r.reconcileRolloutProgressing(rollout, newStatus)
